@@ -567,6 +567,7 @@ impl World {
             | Op::EnvDanglingSymlink(_)
             | Op::EnvRemoveBehind(_)
             | Op::EnvSpecial(..) => Want::Unspec,
+            Op::Reopen => Want::Ok(Some(Out::Unit)),
         }
     }
 }
